@@ -547,8 +547,17 @@ class MultiportILVTMemory(BaseMultiportMemory):
                     with m.Case(value):
                         m.d.comb += [bank_data.eq(m.submodules[f"bank_{value}"].read_ports[index].data)]
 
+            def bit_mask(en: Value):
+                # one enable bit per granule -> one bit per data bit
+                return Cat(bit.replicate(self.shape.width // len(en)) for bit in en)
+
+            # only the granules enabled in the bypassed write replace the stored data
             mux_inputs = [
-                ((write_addr_bypass[idx] == read_addr_bypass) & write_en_bypass[idx], write_data_bypass[idx])
+                (
+                    (write_addr_bypass[idx] == read_addr_bypass) & write_en_bypass[idx].any(),
+                    (write_data_bypass[idx] & bit_mask(write_en_bypass[idx]))
+                    | (bank_data & ~bit_mask(write_en_bypass[idx])),
+                )
                 for idx, write_port in enumerate(self.write_ports)
                 if write_port in read_port.transparent_for
             ]
